@@ -4,5 +4,7 @@ CONSTANTS
   Runs = {0}
   MaxSegs = 2
   MaxLen = 3
+  HopLimit = 6
+  SegLimit = 3
 INVARIANTS TypeOK GraphEqualsDefinition WeightIsLinks PathsAreWalks HopFieldsVerify MtuIsTopologyMinimum ResultOK
 CHECK_DEADLOCK FALSE
